@@ -1,0 +1,7 @@
+//go:build !verif
+// +build !verif
+
+package pbft
+
+// verifIdle is a no-op without the "verif" build tag.
+func (cs *ConsensusState) verifIdle() {}
